@@ -5,7 +5,7 @@ PROP = {
     'blocks': ['c05'],
     'proof_modules': ['C05'],
     'namespaces': ['Altrios.Proofs.C05'],
-    'level': 'partial',
+    'level': 'proof',   # category of the evidence; the claim itself is PARTIAL (see TEXT)
     'required_theorems': [
         'Altrios.Proofs.C05.C05_calc_idx_sentinels_bounds',
         'Altrios.Proofs.C05.C05_calc_idx_sentinels_spec',
@@ -14,6 +14,7 @@ PROP = {
         'Altrios.Proofs.C05.C05_link_opt_new_bounded',
         'Altrios.Proofs.C05.C05_find_after_new',
         'Altrios.Proofs.C05.C05_blocking_views_bounds',
+        'Altrios.Proofs.C05.C05_blocking_views_preserve',
         'Altrios.Proofs.C05.C05_add_blocking_trains_spec',
         'Altrios.Proofs.C05.C05_routeOk_iff_spec',
         'Altrios.Proofs.C05.C05_planOk_iff_spec',
